@@ -423,6 +423,10 @@ class IrGenerator:
                     assert (
                         inp.result() is _boolean.true
                     ), f"internal error: expected boolean literal, got {inp.result()}"
+
+                    # add a Nop to mark the state as used, otherwise a directly
+                    # following await/while is treated as first statement, too
+                    new_state.code().append(ir.Nop())
                 else:
                     if_body = ir.CodeBlock([], parent=new_state.open_block())
                     new_state.append(
